@@ -62,13 +62,18 @@ Definition vsig_tbl (t : list (str * str)) (e : env) (k : key) : bool :=
 
 Definition zero_key : key := mkKey [] [] [] [] [] [] [].
 
-Definition verify_inst (now : Z) (truths : list (str * str)) (cmds : list (list str * cmdkind)) :=
+(* (step name, key id) pairs for which Step.CheckCertConstraints succeeds *)
+Definition cc_tbl (t : list (str * str)) (st : step) (k : key) : bool :=
+  existsb (fun r => str_eqb (fst r) (s_name st) && str_eqb (snd r) (k_keyid k)) t.
+
+Definition verify_inst (now : Z) (truths : list (str * str)) (tc : list (str * key)) (tcc : list (str * str))
+           (cmds : list (list str * cmdkind)) :=
   verify world (vsig_tbl truths)
          (fun s => is_ok (verify_expiration now s))
          substitute
          (fun _ _ => true)
          load_all
-         (fun l _ sm => verify_thresholds (vsig_tbl truths) (fun _ => None) (fun _ _ => false) l sm)
+         (fun l _ sm => verify_thresholds (vsig_tbl truths) (tbl_get_cert tc) (cc_tbl tcc) l sm)
          (fun items meta => verify_artifacts_go items meta)
          (run_insp_tbl cmds) retval_zero_tbl (fun _ => []) zero_key.
 
@@ -82,10 +87,11 @@ Definition show_summary (s : env) : str :=
   end.
 
 (* observable compared with the implementation: verdict | summary | inspections executed *)
-Definition e2e_run (now : Z) (truths : list (str * str)) (cmds : list (list str * cmdkind))
+Definition e2e_run (now : Z) (truths : list (str * str)) (tc : list (str * key)) (tcc : list (str * str))
+           (cmds : list (list str * cmdkind))
            (prefix : str) (files : amap str) (d : linkdir) (layout_env : env) (keys : amap key)
            (step_name : str) (params : amap str) : str :=
-  match verify_inst now truths cmds 8 (mkWorld prefix files) [] d layout_env keys step_name params [] with
+  match verify_inst now truths tc tcc cmds 8 (mkWorld prefix files) [] d layout_env keys step_name params [] with
   | (Ok s, _, tr) => bs "accept|" ++ show_summary s ++ [124] ++ join [44] (insp_log tr)
   | (Err _, _, tr) => bs "reject||" ++ join [44] (insp_log tr)
   | (Panic _, _, tr) => bs "PANIC||" ++ join [44] (insp_log tr)
